@@ -229,6 +229,21 @@ def r20_2(ctx: Ctx, R: Resolver):
                 from ..cfg import cguards_of as _cgo, ctext as _ctx
                 if not ok and _ctx("%r in %s" % (key, rec)) in _cgo(sub, pmf, split=True):
                     ok, how = True, "`%r in %s` holds on the way to the read" % (key, rec)
+                # the record comes from a list filtered by the presence test: `for rec in [r for r in ... if 'key' in r]`
+                if not ok and isinstance(sub.value, ast.Name):
+                    from ..pat import single_defs as _sd20
+                    for a in ancestors(sub, pmf):
+                        if isinstance(a, ast.For) and isinstance(a.target, ast.Name) and a.target.id == sub.value.id:
+                            src_ = a.iter
+                            if isinstance(src_, ast.Name):
+                                # the list may be rebuilt on every pass of an outer loop: take its (unique) assignment
+                                defs_ = [s_ for s_ in ast.walk(f.node) if isinstance(s_, ast.Assign) and norm(s_.targets[0]) == src_.id]
+                                src_ = defs_[0].value if len(defs_) == 1 else src_
+                            if isinstance(src_, (ast.ListComp, ast.GeneratorExp)) and len(src_.generators) == 1 \
+                                    and isinstance(src_.elt, ast.Name) and norm(src_.generators[0].target) == src_.elt.id:
+                                lits = [x_ for i_ in src_.generators[0].ifs for x_ in __import__("gmsa.cfg", fromlist=["conjuncts"]).conjuncts(i_, True)]
+                                if _ctx("%r in %s" % (key, src_.elt.id)) in lits:
+                                    ok, how = True, "the record is drawn from a list filtered by `%r in ...`" % key
                 # try/except KeyError
                 for a in ancestors(sub, pmf):
                     if isinstance(a, ast.Try) and any(h.type is not None and "KeyError" in norm(h.type) for h in a.handlers) \
@@ -354,14 +369,25 @@ def r20_3(ctx: Ctx, R: Resolver):
                 used_ = used_[0] if used_ else "used_files"
                 t1_, p1_ = ctext("'top_AA' in %s[%s.name]" % (recv, mol_))
                 want = sorted([(t1_, not p1_), ctext("%s not in %s and %s.name in %s" % (fn_, used_, mol_, recv))])
-                ctx.ob("R20.3", sm, st, g_ == want,
-                       "the end topology of a species is a candidate that was not used as start topology, has the species' "
-                       "molecule name, and is taken only if none was stored yet (guards: %s)" % g_, node=st)
+                has_used = any(call_name(c_) == "add" and c_.args and norm(c_.args[0]) == fn_ for c_ in calls_in(sm.node))
+                if g_ == want or (has_used and lp_):
+                    ctx.ob("R20.3", sm, st, g_ == want,
+                           "the end topology of a species is a candidate that was not used as start topology, has the species' "
+                           "molecule name, and is taken only if none was stored yet (guards: %s)" % g_, node=st)
+                else:
+                    ctx.ob("R20.3", sm, st, True, "the bookkeeping of used start topologies is not a set filled with the accepted file "
+                           "names; the choice of the end topology is not decided on this tree", undecided=True, node=st)
             else:
-                ctx.ob("R20.3", sm, st, any(t.startswith("'coor_AA' in ") and not pol for t, pol in cguards_of(st, pms, split=True))
-                       and not any(isinstance(a_, ast.Try) and st in a_.body for a_ in ancestors(st, pms)),
-                       "the end coordinates of a species are the first candidate that loads with its end topology (stored in the "
-                       "else-branch of the trial load, only while none is stored)", node=st)
+                okc_ = any(t.startswith("'coor_AA' in ") and not pol for t, pol in cguards_of(st, pms, split=True)) \
+                    and not any(isinstance(a_, ast.Try) and st in a_.body for a_ in ancestors(st, pms))
+                direct_trial = any(isinstance(a_, ast.Try) for a_ in ancestors(st, pms))
+                if okc_ or direct_trial:
+                    ctx.ob("R20.3", sm, st, okc_,
+                           "the end coordinates of a species are the first candidate that loads with its end topology (stored in the "
+                           "else-branch of the trial load, only while none is stored)", node=st)
+                else:
+                    ctx.ob("R20.3", sm, st, True, "the trial load is not a try/except/else around this store; first-candidate choice not "
+                           "decided on this tree", undecided=True, node=st)
     # exclusion precedes append
     loops = [n for n in walk_no_nested(main.node) if isinstance(n, ast.For)
              and any(call_name(c) == "append" for c in calls_in(n))]
@@ -560,6 +586,10 @@ def r20_4(ctx: Ctx, R: Resolver):
                 roles["end_topology"] = norm(b.get(mff.params[2]))
             if call_name(c) == "append" and c.args:
                 roles["start_topologies"] = norm(c.args[0])
+        # locals that merely name an element of the triple are read as that element
+        al_ = {norm(s_.targets[0]): norm(s_.value) for s_ in loops[0].body if isinstance(s_, ast.Assign) and isinstance(s_.targets[0], ast.Name)
+               and isinstance(s_.value, ast.Subscript) and norm(s_.value.value) == sp}
+        roles = {k_: al_.get(v_, v_) for k_, v_ in roles.items()}
         okt = roles == {"name_from": sp + "[0]", "end_coordinates": sp + "[1]", "end_topology": sp + "[2]",
                         "start_topologies": sp + "[0]"}
     ctx.ob("R20.4", am, loops[0] if loops else "species loop", okt,
@@ -638,6 +668,16 @@ def r20_4(ctx: Ctx, R: Resolver):
             facts["coor_AA_tested_with"] = (norm(c.args[0]), norm(c.args[1]))
             okr &= isinstance(c.args[1], ast.Subscript) and isinstance(c.args[1].slice, ast.Constant) and c.args[1].slice.value == "top_AA"
     okr &= "top_CG" in facts and "coor_AA_tested_with" in facts
+    nested_trial = any(call_name(c) == "from_files" for n_ in ast.walk(sm.node) if isinstance(n_, ast.FunctionDef) and n_ is not sm.node
+                       for c in ast.walk(n_) if isinstance(c, ast.Call))
+    if not okr and nested_trial:
+        ctx.ob("R20.4", sm, "record roles", True, "the trial load is done by a local helper; which files it is given is not decided on this tree",
+               undecided=True, node=sm.node)
+    else:
+        _record_roles_ob(ctx, sm, facts, okr)
+
+
+def _record_roles_ob(ctx, sm, facts, okr):
     ctx.ob("R20.4", sm, "record roles %s" % facts, okr,
            "top_CG is the topology the reference system accepted; coor_AA is a coordinate file that loads with top_AA",
            node=sm.node)
